@@ -238,6 +238,8 @@ async fn actor_steps(ctx: &mut Ctx, case: u64, rng: &mut Rng, h: &SyncHandle, do
     let mut trace = vec![];
     let mut upgraded = false;
     let mut tick = 0;
+    // helper document with a bounded subscriber, created on first use (see the abandoned import step)
+    let mut busy: Option<Option<(NamespaceId, async_channel::Receiver<iroh_docs::Event>)>> = None;
     for a in &docs[0].authors {
         h.import_author(a.clone()).await.map_err(|e| e.to_string())?;
     }
@@ -246,6 +248,55 @@ async fn actor_steps(ctx: &mut Ctx, case: u64, rng: &mut Rng, h: &SyncHandle, do
         let id = docs[d].ns.id();
         tick += 1;
         match rng.below(9) {
+            0 | 1 if rng.chance(1, 4) => {
+                // An import whose caller gives up while the actor is busy (it waits in event delivery
+                // for a subscriber of another document whose channel is full), followed by the same
+                // import awaited to the end: from that acknowledgement on the capability is held,
+                // also by the replica that is open.
+                let write = rng.chance(2, 3);
+                let cap = if write { Capability::Write(docs[d].ns.clone()) } else { Capability::Read(id) };
+                let z = busy.get_or_insert_with(|| None);
+                if z.is_none() {
+                    let zs = namespace(9);
+                    let (tx, rx) = async_channel::bounded::<iroh_docs::Event>(1);
+                    h.import_namespace(Capability::Write(zs.clone())).await.map_err(|e| format!("import: {e}"))?;
+                    h.open(zs.id(), OpenOpts::default().subscribe(tx)).await.map_err(|e| format!("open: {e}"))?;
+                    *z = Some((zs.id(), rx));
+                }
+                let (zid, zrx) = z.as_ref().unwrap();
+                let a = docs[0].authors[0].id();
+                // fill the subscriber's channel, then send the request that makes the actor wait
+                while zrx.try_recv().is_ok() {}
+                let (hh, l) = content(1);
+                let _ = h.insert_local(*zid, a, vec![b'z', (tick % 250) as u8, 0].into(), hh, l).await;
+                let blocked = {
+                    let h2 = h.clone();
+                    let zid = *zid;
+                    let k: bytes::Bytes = vec![b'z', (tick % 250) as u8, 1].into();
+                    tokio::spawn(async move { h2.insert_local(zid, a, k, hh, l).await })
+                };
+                tokio::time::sleep(std::time::Duration::from_millis(2)).await;
+                let gave_up = tokio::time::timeout(std::time::Duration::from_millis(2), h.import_namespace(cap.clone())).await.is_err();
+                // the subscriber catches up; the actor finishes the insert and reaches the abandoned import
+                let t = std::time::Instant::now();
+                while !blocked.is_finished() && t.elapsed() < std::time::Duration::from_secs(20) {
+                    while zrx.try_recv().is_ok() {}
+                    tokio::time::sleep(std::time::Duration::from_millis(1)).await;
+                }
+                let _ = blocked.await;
+                while zrx.try_recv().is_ok() {}
+                if gave_up {
+                    ctx.count("imports_whose_caller_gave_up_while_the_actor_was_busy", 1);
+                }
+                // the same import again, this time awaited
+                h.import_namespace(cap).await.map_err(|e| format!("import: {e}"))?;
+                if caps[d] == Cap::Read && write {
+                    upgraded = true;
+                }
+                caps[d] = caps[d].max(if write { Cap::Write } else { Cap::Read });
+                trace.push(format!("import doc{d} {} (caller gave up: {gave_up}), then the same import acknowledged", if write { "write" } else { "read" }));
+                ctx.count("imports", 1);
+            }
             0 | 1 => {
                 let write = rng.chance(1, 2);
                 let cap = if write { Capability::Write(docs[d].ns.clone()) } else { Capability::Read(id) };
